@@ -400,7 +400,7 @@ func parseGetValue(out string) map[string]string {
 		if !ok || len(pair) != 2 {
 			continue
 		}
-		res[sexpString(pair[0])] = sexpString(pair[1])
+		res[strings.ReplaceAll(sexpString(pair[0]), "|", "")] = sexpString(pair[1])
 	}
 	return res
 }
